@@ -193,14 +193,14 @@ func runProperty(id string, def propDef, repo, verif, tier string, seed int64, n
 		premiseFailed := false
 		failedPkgs := map[string]bool{}
 		for _, o := range append(append([]Obligation(nil), all...), layoutObls...) {
-			if (o.Rule == "R07.store" || o.Rule == "R07.overlap") && !o.OK {
+			if (o.Rule == "R07.storev" || o.Rule == "R07.overlap") && !o.OK {
 				premiseFailed = true
 				if i := strings.IndexByte(o.Instance, '.'); i > 0 {
 					failedPkgs[o.Instance[:i]] = true
 				}
 			}
 		}
-		ownsPremise := w.Wants("R07.store")
+		ownsPremise := w.Wants("R07.store") || w.Wants("R07.storev")
 		kept := 0
 		for _, o := range all {
 			inFailedPkg := false
